@@ -30,7 +30,7 @@ RULE = ("random system bounds/exclusion zone x 1-6 proposals (priorities with ti
 REQUIRED_BUCKETS = ["conflicting-set", "conflict-free-set", "zone-straddling-bounds", "all-None-proposals",
                     "ties", "expiry-drops-some", "stale-replaced", "zone-present", "target-on-zone-edge",
                     "two-groups-share-actors", "max-age:60s", "max-age:other", "tiny-nonzero-preference"]
-REQUIRED_COUNTERS = ["targets_observed", "histories_run", "expiry_checks"]
+REQUIRED_COUNTERS = ["targets_observed", "histories_run", "expiry_checks", "bounds_shrink_and_recover_checks"]
 ASSUMPTIONS = ["history-freeness is checked for the final live set of each history (latest proposal per actor)"]
 
 
@@ -91,6 +91,19 @@ def _run_history(order: list[int], props: list[dict[str, Any]], sb: Any, hr: ran
         r = m.calculate_target_power(pm.CID, pm.mk_proposal(props[i]), sb, hr.random() < 0.5)
         if r is not None:
             last = r.as_watts()
+    # bounds-only updates the way the manager's bounds tracker issues them (no proposal, must_return_power=False): the
+    # system bounds shrink and recover; the stored target must then be the one of the current bounds again
+    if hr.random() < 0.5:
+        shrunk = pm.mk_sysbounds([min(sys[0], -5.0) / 4, max(sys[1], 5.0) / 4], excl)
+        m.calculate_target_power(pm.CID, None, shrunk, False)
+        m.calculate_target_power(pm.CID, None, sb, False)
+        stored = m.get_target_power(pm.CID)
+        fresh_t = m.calculate_target_power(pm.CID, None, sb, True)
+        rec.count("bounds_shrink_and_recover_checks")
+        if (stored is None) != (fresh_t is None) or (stored is not None and abs(stored.as_watts() - fresh_t.as_watts()) > 1e-6):
+            rec.violation("stored-target-depends-on-earlier-system-bounds",
+                          {"stored_after_bounds_recovered": None if stored is None else stored.as_watts(),
+                           "recomputed": None if fresh_t is None else fresh_t.as_watts(), "sys": sys, "excl": excl})
     # the externally visible target of the live set
     t = m.calculate_target_power(pm.CID, None, sb, True)
     got = m.get_target_power(pm.CID)
